@@ -19,7 +19,7 @@ class Report:
             self.samples.append(sample)
 
     def fail(self, what, function=None, input=None, observed=None, required=None):  # noqa: A002
-        if len(self.failures) < 25:
+        if len(self.failures) < 400:
             self.failures.append(dict(what=what, function=function, input=input, observed=_j(observed),
                                       required=_j(required)))
 
